@@ -457,4 +457,69 @@ package serf
 //@   ensures success_means_sent [C35]: err == nil ==> sent >= 1
 //@ end
 
+// ---------------------------------------------------------------- user events (C05 C14 C04 C33 C06)
+
+//@ import "bytes"
+
+// the msgpack codec is reflection-driven library code: outside the engine's reach
+//@ func encodeMessage(t messageType, msg any, msgpackUseNewTimeFormat bool) (raw []byte, err error)
+//@   trusted
+//@ end
+
+// broadcasts queued for gossip: ghost log "queued" (the queue) / "queuedlen" (message length)
+//@ func (q *memberlist.TransmitLimitedQueue) QueueBroadcast(b memberlist.Broadcast)
+//@   trusted
+//@   assigns LogN_queued:Int, Log_queued:(Array Int Ref), Log_queuedlen:(Array Int Int)
+//@   ensures logged: logN("queued") == old(logN("queued"))+1 && logAt[*memberlist.TransmitLimitedQueue]("queued", old(logN("queued"))) == q &&
+//@       logAt[int]("queuedlen", old(logN("queued"))) == len(b.(*broadcast).msg)
+//@ end
+
+//@ pure func evEquals(e userEvent, name string, payload []byte) bool { return e.Name == name && bytes.Equal(e.Payload, payload) }
+// the event (lt, name, payload) is recorded in the recent-event buffer
+//@ pure func slotHas(s *Serf, lt LamportTime, name string, payload []byte) bool {
+//@   b := s.eventBuffer[lt % LamportTime(len(s.eventBuffer))]
+//@   return b != nil && b.LTime == lt && exists(func(i int) bool { return 0 <= i && i < len(b.Events) && evEquals(b.Events[i], name, payload) })
+//@ }
+// with the event clock at c, time lt has fallen out of a window of n slots
+//@ pure func tooOldAt(c LamportTime, n int, lt LamportTime) bool { return c > LamportTime(n) && lt < c-LamportTime(n) }
+// the n-th event sent to the application is exactly this user event
+//@ pure func userEventIs(s *Serf, n int, m *messageUserEvent) bool {
+//@   e, ok := sentAt(s.config.EventCh, n).(UserEvent)
+//@   return ok && e.LTime == m.LTime && e.Name == m.Name && sameSlice(e.Payload, m.Payload) && e.Coalesce == m.CC
+//@ }
+//@ pure func wfEvents(s *Serf) bool {
+//@   return s != nil && s.config != nil && len(s.eventBuffer) > 0 && !nilSlice(s.eventBuffer) && arrayAllocated(s.eventBuffer) &&
+//@     forall(func(i int) bool { return 0 <= i && i < len(s.eventBuffer) && s.eventBuffer[i] != nil ==> allocated(s.eventBuffer[i]) })
+//@ }
+
+//@ func (s *Serf) handleUserEvent(eventMsg *messageUserEvent) (rebroadcast bool)
+//@   requires wf: wfEvents(s) && eventMsg != nil
+//@   case wrap_at_max: uint64(eventMsg.LTime) == maxU64()
+//@   oldlet seen0 := slotHas(s, eventMsg.LTime, eventMsg.Name, eventMsg.Payload)
+//@   oldlet c0 := s.eventClock.Time()
+//@   oldlet min0 := s.eventMinTime
+//@   oldlet evN := sentN(s.config.EventCh)
+//@   oldlet n := len(s.eventBuffer)
+//@   let c1 := s.eventClock.Time()
+//@   let delivered := sentN(s.config.EventCh) == evN+1 && userEventIs(s, evN, eventMsg)
+//@   # C05: a duplicate (same time, name and payload already recorded) is never delivered again
+//@   ensures duplicate_dropped [C05,C04]: seen0 ==> !rebroadcast && sentN(s.config.EventCh) == evN
+//@   # C14: nothing older than the node's cut-off is delivered
+//@   ensures before_cutoff_dropped [C14,C05]: eventMsg.LTime < min0 ==> !rebroadcast && sentN(s.config.EventCh) == evN
+//@   # outside the recent-event window: dropped
+//@   ensures too_old_dropped [C05]: rebroadcast ==> !tooOldAt(c0, n, eventMsg.LTime)
+//@   # C05: first receipt inside the window and not before the cut-off: delivered (and re-broadcast)
+//@   ensures first_receipt_delivered [C05]: !seen0 && eventMsg.LTime >= min0 && !tooOldAt(c1, n, eventMsg.LTime) ==> rebroadcast
+//@   ensures delivered_iff_rebroadcast [C05,C04]: (rebroadcast && s.config.EventCh != nil ==> delivered) && (!rebroadcast ==> sentN(s.config.EventCh) == evN)
+//@   # what was delivered is recorded, so that the next copy is recognised
+//@   ensures recorded [C05,C04]: rebroadcast ==> slotHas(s, eventMsg.LTime, eventMsg.Name, eventMsg.Payload)
+//@   ensures cutoff_unchanged [C14]: s.eventMinTime == min0 && len(s.eventBuffer) == n
+//@   ensures clock_witnessed [C06]: s.eventClock.Time() > eventMsg.LTime && s.eventClock.Time() >= c0
+//@   ensures wf: wfEvents(s)
+//@   ensures earlier_events_kept [C16]: earlierEventsKept()
+//@   loop 1 vars rangeindex int, seen *userEvents
+//@   loop 1 invariant scanned [C05]: seen != nil && -1 <= rangeindex && rangeindex < len(seen.Events) &&
+//@       forall(func(j int) bool { return 0 <= j && j <= rangeindex ==> !evEquals(seen.Events[j], eventMsg.Name, eventMsg.Payload) })
+//@ end
+
 // END-OF-CONTRACTS
